@@ -1,3 +1,4 @@
 pub mod quake;
 pub mod valve;
 pub mod gamespy;
+pub mod unreal2;
